@@ -215,6 +215,8 @@ class DequeCount:
                 pidx = self.returns_sized(inner[1])
                 if pidx is not None and pidx - 1 < len(inner[2]):
                     return lin_of(inner[2][pidx - 1]), True, d[1]
+                # produced by a crate function whose result size this analysis could not summarise
+                self.__dict__.setdefault('_unsummarised', {})[(body.path, D)] = canon(inner[1]).split('::')[-1]
             return ({}, 0), False, d[1]
         return ({}, 0), False, 0
 
@@ -310,6 +312,11 @@ class DequeCount:
             chain = sorted([h for h, blks in loops.items() if o['bb'] in blks and h not in def_loops], key=lambda h: -len(loops[h]))
             o['chain'] = chain     # outermost first
         final = self.track_level(body, ex, loops, D, ops, 0, size, exact, res)
+        who = self.__dict__.get('_unsummarised', {}).get((body.path, D))
+        if who:
+            for bb_, (ok_, why_) in list(res.items()):
+                if not ok_:
+                    res[bb_] = (ok_, (why_ or 'the queue is not known to be non-empty here') + f' (the queue is produced by {who}(), whose result size could not be summarised)')
         return res, final
 
     def track_level(self, body, ex, loops, D, ops, depth, size, exact, res):
@@ -368,7 +375,7 @@ class DequeCount:
                     zk = [z[2]['kind']] if z[0] == 'op' else [o['kind'] for o in z[2]]
                     if any(k in ('pop', 'kill', 'consume') for k in zk):
                         size, exact = ({}, 0), False
-                    elif any(k in ('push', 'maypush', 'len') for k in zk):
+                    elif any(k in ('push', 'maypush') for k in zk):
                         exact = False
             size, exact = self.apply_phase(body, ex, loops, D, ph, depth, size, exact, res)
             after[id(ph)] = (size, exact)
@@ -398,7 +405,8 @@ class DequeCount:
                         size = ({}, 0)
                 elif k == 'len':
                     dest = o['dest']
-                    if single_def(body, dest) is not None:
+                    # a length snapshot names the size when it is not already known exactly (reading the length of a queue of known size changes nothing)
+                    if single_def(body, dest) is not None and not exact:
                         size = ({('var', dest, body.name_of(dest)): 1}, 0)
                         exact = True
                 elif k in ('kill', 'consume'):
